@@ -75,7 +75,8 @@ Definition decide_tr (g : rgraphT) (T2 : node) : option raction :=
                           | Some axs =>
                               match out1 red, first_in T1 with
                               | Some ro, Some _ =>
-                                  if robserved g ro then None else
+                                  (* schema: a ReduceMean has at most two inputs and no nested graph *)
+                                  if robserved g ro || negb (no_caps red) || Nat.ltb 2 (length (n_ins red)) then None else
                                   match consumers (rt_nodes g) ro with
                                   | [c] => if node_eqb c T2 then Some (mkRA T1 red T2 axs) else None
                                   | _ => None
